@@ -130,6 +130,8 @@ func seqJobList(prop, tier string) []*SeqJob {
 		return c12Jobs(tier)
 	case "C13":
 		return c13Jobs(tier)
+	case "C14":
+		return []*SeqJob{c13StringLengthJob("C14", tier)}
 	}
 	return nil
 }
